@@ -436,6 +436,53 @@ def body_of(tree, ctx, k=""):
     raise ValueError(ctx)
 
 
+# op-assignment through a target path that contains calls: `pk(1).n += 3`, `xs[nxt(1)] *= 2`, `a.me(1).n -= 3` ... every call of the path is
+# evaluated exactly once (the value is read from and written to the SAME slot), whatever the operator; the calls log and are not idempotent
+# (pk alternates between two objects, nxt advances a cursor), so a second evaluation shows in the log and in the final state
+OPA_FORMS = {
+    "pk.n": ("field", ("call", V("pk"), [("int", 1)]), "n"),
+    "same.n": ("field", ("call", V("same"), [("int", 1)]), "n"),
+    "a.me.n": ("field", ("method", V("oa"), "me", [("int", 1)]), "n"),
+    "pk.me.n": ("field", ("method", ("call", V("pk"), [("int", 1)]), "me", [("int", 2)]), "n"),
+    "xs[nxt]": ("index", V("xs"), ("call", V("nxt"), [("int", 1)])),
+    "gl[1]": ("index", ("call", V("gl"), [("int", 1)]), ("int", 1)),
+    "gl[nxt]": ("index", ("call", V("gl"), [("int", 1)]), ("call", V("nxt"), [("int", 2)])),
+    "pk.l[nxt]": ("index", ("field", ("call", V("pk"), [("int", 1)]), "l"), ("call", V("nxt"), [("int", 2)])),
+}
+OPA_OPS = ["+=", "-=", "*=", "/=", "%="]
+OPA_RHS = {"literal": ("int", 3), "variable": V("rv"), "logging-call": ("call", V("lr"), [("int", 9)])}
+OPA_CTX = ["block", "fn", "loop"]      # first statement of a block: a line that starts with `(` would continue the statement before it
+
+
+def opa_program(form, op, rhs, ctx):
+    nd = ("class", "Nd", [("n", "int"), ("l", "[int...]")],
+          ([("n", "int")], [("setfield", V("self"), "n", V("n")), ("setfield", V("self"), "l", ("list", [("int", 7), ("int", 8), ("int", 9)]))]),
+          [("me", [("i", "int")], "Self", [("print", ("bin", "+", ("str", "me "), V("i"))), ("return", V("self"))])])
+    pre = [nd, ("assign", "oa", ("new", "Nd", [("int", 10)]), None, ()), ("assign", "ob2", ("new", "Nd", [("int", 20)]), None, ()),
+           ("assign", "turn", ("int", 0), None, ()), ("assign", "cur", ("int", 0), None, ()), ("assign", "rv", ("int", 3), None, ()),
+           ("assign", "xs", ("list", [("int", 10), ("int", 20), ("int", 30)]), "[int...]", ()),
+           ("assign", "pk", ("fn", [("i", "int")], "Nd",
+                             [("print", ("bin", "+", ("str", "pk "), V("i"))), ("assign", "turn", ("bin", "+", V("turn"), ("int", 1)), None, ("modify",)),
+                              ("if", ("bin", "==", ("bin", "%", V("turn"), ("int", 2)), ("int", 1)), [("return", V("oa"))], None),
+                              ("return", V("ob2"))]), None, ()),
+           ("assign", "same", ("fn", [("i", "int")], "Nd", [("print", ("bin", "+", ("str", "same "), V("i"))), ("return", V("oa"))]), None, ()),
+           ("assign", "nxt", ("fn", [("i", "int")], "int",
+                              [("print", ("bin", "+", ("str", "nxt "), V("i"))), ("assign", "cur", ("bin", "+", V("cur"), ("int", 1)), None, ("modify",)),
+                               ("return", ("bin", "-", V("cur"), ("int", 1)))]), None, ()),
+           ("assign", "gl", ("fn", [("i", "int")], "[int...]", [("print", ("bin", "+", ("str", "gl "), V("i"))), ("return", V("xs"))]), None, ()),
+           ("assign", "lr", ("fn", [("i", "int")], "int", [("print", ("bin", "+", ("str", "lr "), V("i"))), ("return", ("int", 3))]), None, ())]
+    stmt = ("opassign", OPA_FORMS[form], op, OPA_RHS[rhs])
+    if ctx == "block":
+        body = [("if", ("bool", True), [stmt], None)]
+    elif ctx == "fn":
+        body = [("assign", "host", ("fn", [], None, [stmt]), None, ()), ("expr", ("call", V("host"), []))]
+    else:
+        body = [("from", ("int", 0), ("int", 2), False, None, None, [stmt])]
+    obs = [("print", ("field", V("oa"), "n")), ("print", ("field", V("ob2"), "n")), ("print", ("field", V("oa"), "l")), ("print", ("field", V("ob2"), "l")),
+           ("print", V("xs")), ("print", V("turn")), ("print", V("cur")), ("print", ("str", "end"))]
+    return pre + body + obs
+
+
 ORDER = ["ob", "obn", "obv", "ei", "eb", "eb0", "fi", "fb", "ue", "ueb", "uf", "ufb", "cn", "cb", "v", "u", "vb", "ub", "t", "r", "bt", "bf", "o", "on", "f2", "f3", "f4", "sum3", "idx", "+s", "msum", "m"] + CALLEE_FORMS
 
 
@@ -501,7 +548,7 @@ class C15(Check):
     rule = ("typed expression trees whose leaves are logging calls t(i) (int), r(i) (recursive: re-enters the same code one frame deeper and "
             "evaluates a binary expression there), b(i) (bool true/false), o(i) (int? present/nil), and - in the variable-leaf layers - bare reads of a "
             "module variable (int gx / bool gb) next to calls u(i) / ub(i) that log, modify that variable and return it, so that a read "
-            "performed too late or too early is visible, in the slot-leaf layers silent reads of a list element / object field next to calls that log and write that very slot, and - in the constant-leaf layers - literals (true, false, 2, 0) next to logging siblings; nodes: every binary operator of the language (+ - * / % & | xor << >> < <= > >= == != && || ^), string concatenation, "
+            "performed too late or too early is visible, in the op-assignment layer statements `path op= rhs` whose target path contains logging, non-idempotent calls (8 path forms x 5 operators x 3 right-hand sides x 3 contexts: every call exactly once, value read from and written to the same slot), in the slot-leaf layers silent reads of a list element / object field next to calls that log and write that very slot, and - in the constant-leaf layers - literals (true, false, 2, 0) next to logging siblings; nodes: every binary operator of the language (+ - * / % & | xor << >> < <= > >= == != && || ^), string concatenation, "
             " f2..f4(E,..), obj.m(E,E), five further callee forms of a two-argument call (function literal called on the spot, function in a field through the object "
             "and through a parenthesised lookup, function from a list element, function returned by a call), list literal [E,E,E], list literal + index, map literal {E:E,E:E}, B&&B, B||B, !B, (O) or E; "
             "all trees of depth <=1, depth 2 with every child arbitrary for unary/binary nodes, depths 2-4 by rule 1 (one arbitrary child, "
@@ -522,7 +569,8 @@ class C15(Check):
         r3 = [n for t in ("I", "B") for n in trees_rule1(3, t, memo) if tdepth(n) == 3]
         sm = {}
         s3 = [n for t in ("I", "B") for n in trees_spine(3, t, sm) if tdepth(n) == 3]
-        ls = [("L0-depth1-all-contexts", L0), ("L1-depth2-rule1", [(n, "print") for n in r2]),
+        opa = [("#opa", f, o, r, c) for f in OPA_FORMS for o in OPA_OPS for r in OPA_RHS for c in OPA_CTX]
+        ls = [("Lo-op-assignment-through-target-paths-with-calls", opa), ("L0-depth1-all-contexts", L0), ("L1-depth2-rule1", [(n, "print") for n in r2]),
               ("Lp-depth2-operator-pairs-minimal-parentheses", [(n, "print", "min") for n in r2 if syntactic_chain(n, 2)])]
         with leafset(I=IV_LEAVES + [("t",)], B=BV_LEAVES + [("bt",)]):
             v1 = depth1()
@@ -580,6 +628,8 @@ class C15(Check):
     def describe(self, case):
         if case[0] == "__batch__":
             return {"group": [repr(c[0]) for c in case[1]]}
+        if case[0] == "#opa":
+            return {"target": case[1], "operator": case[2], "right-hand side": case[3], "context": case[4]}
         return {"tree": repr(case[0]), "context": case[1], "rendering": "minimal parentheses" if len(case) > 2 else "fully parenthesised"}
 
     batch = 8
@@ -626,7 +676,41 @@ class C15(Check):
         return results, detail
 
     def run_batch(self, cases):
+        if any(c[0] == "#opa" for c in cases):
+            return [self.run_case(c) for c in cases]
         return self.run_group(cases)[0]
+
+    def run_opa(self, case):
+        _, form, op, rhs, ctx = case
+        ast = opa_program(form, op, rhs, ctx)
+        src = refint.program(ast)
+        it = refint.Interp()
+        ok, failure = it.run(ast)
+        res = driver.run_ms(src)
+        lines = res.lines()
+        if driver.compile_rejected(res):
+            return {"outcome": "rejected", "nontrivial": False, "tags": ["rejected", "opa-rejected:" + form], "show": res.out[-300:]}
+        if not ok:
+            return {"outcome": "model-failure", "nontrivial": False, "tags": ["model-failure"]}
+        detail = {"files": {"x.ms": src}, "res": res.brief(), "expected_lines": it.out}
+        viol = []
+        islog = lambda l: l.split(" ")[0] in ("pk", "same", "me", "nxt", "gl", "lr")
+        exp_log, got_log = [l for l in it.out if islog(l)], [l for l in lines if islog(l)]
+        exp_val, got_val = [l for l in it.out if not islog(l)], [l for l in lines if not islog(l)]
+        sig = {"form": form, "op": op, "rhs": rhs, "ctx": ctx}
+        if res.exit != 0:
+            viol.append({"sig": dict(sig, kind="unexpected-failure"), "what": f"{form} {op} <{rhs}> in {ctx}: exit {res.exit} ({driver.classify_failure(res)}) after {lines[-3:]}",
+                         "detail": detail})
+        elif sorted(exp_log) != sorted(got_log):
+            viol.append({"sig": dict(sig, kind="evaluation-count"),
+                         "what": f"{form} {op} <{rhs}> in {ctx}: the calls of the target path / right-hand side must each run once per execution: expected log {exp_log}, got {got_log}",
+                         "detail": detail})
+        elif rhs != "logging-call" and exp_log != got_log:
+            viol.append({"sig": dict(sig, kind="order"), "what": f"{form} {op} <{rhs}> in {ctx}: calls of the target path out of order: expected {exp_log}, got {got_log}", "detail": detail})
+        elif exp_val != got_val:
+            viol.append({"sig": dict(sig, kind="value"), "what": f"{form} {op} <{rhs}> in {ctx}: final state expected {exp_val}, got {got_val}", "detail": detail})
+        return {"outcome": "opa-ok" if not viol else "opa-DIFF", "viol": viol, "nontrivial": True, "tags": ["opa", "opa-" + form, "ctx-opa-" + ctx],
+                "counters": {"states": len(it.out) + 1, "transitions": len(it.out)}}
 
     def run_case(self, case):
         if case[0] == "__batch__":
@@ -637,6 +721,8 @@ class C15(Check):
                     "viol": [{"sig": {"kind": "group-only", "ops": "", "ctx": ""},
                               "what": f"{len(case[1])} trees evaluated one after the other in one program differ from the model although each "
                                       f"passes on its own: {[c[0] for c in case[1]]!r}", "detail": detail}]}
+        if case[0] == "#opa":
+            return self.run_opa(case)
         tree, ctx = case[0], case[1]
         minp = len(case) > 2
         ast = build(tree, ctx)
@@ -684,6 +770,9 @@ class C15(Check):
         for o in ALL_OPS + ["v", "u", "vb", "ub", "k2", "ct", "cf", "cn", "cb", "ei", "eb", "fi", "fb", "ob", "obn", "obv"]:
             if not stats["tags"].get(f"op{o}"):
                 errs.append(f"vacuity: node kind {o} never executed")
+        for f in OPA_FORMS:
+            if not stats["tags"].get("opa-" + f):
+                errs.append(f"vacuity: op-assignment target form {f} never executed (rejected by the compiler?)")
         if not stats["tags"].get("ctx-print~minparen"):
             errs.append("vacuity: no tree rendered with minimal parentheses")
         rej = stats["tags"].get("rejected", 0)
